@@ -182,6 +182,7 @@ type recReq struct {
 	Body   []byte
 	Status int
 	Err    string
+	At     time.Time // when the round trip returned to the forwarder (recorded bracket, never a deadline)
 }
 
 type recorder struct {
@@ -204,6 +205,7 @@ func (rt *recorder) RoundTrip(req *http.Request) (*http.Response, error) {
 	} else {
 		rec.Status = resp.StatusCode
 	}
+	rec.At = time.Now()
 	rt.mu.Lock()
 	rt.reqs = append(rt.reqs, rec)
 	rt.mu.Unlock()
@@ -1080,7 +1082,7 @@ func TestCheck(t *testing.T) {
 	defer r.Finish()
 	logrus.SetOutput(io.Discard)
 	debug.SetGCPercent(400) // lz4 streams allocate 4 MiB blocks on both sides; collect less often
-	r.Rule("cases: (a) a fresh MetricMap (1..40, sometimes up to 1800 datapoints over small pools of valid-UTF-8 names / tags / sources / set members incl. empty tag lists, empty sources, empty set member, NUL and 4-byte runes; all four types; gauge and timer values from arbitrary bit patterns incl. NaN, ±Inf, ±0, denormals, ±MaxFloat64; sampled rates; extreme counters and arbitrary sampled counts written into the aggregate) or (b) an event (all 8 priority x alert combinations, empty fields, nil / empty / filled tags, multi-line text, zero / negative / huge dates) is given to a real HttpForwarderHandlerV2 of one of 22 compression configurations (off, none, zlib 0-9, lz4 0-9; configurations cycle so every one is used equally), flushed by hand, and compared with what the real ingestion router dispatched; (c) 4-5 corruptions of the recorded request bytes of every such case (truncate, bit flips, wrong / unknown Content-Encoding label, garbage, other endpoint, trailing bytes, deleted byte, body shorter than Content-Length over raw TCP) are posted to the router and judged against the harness' own decompress + proto.Unmarshal. (a') every 13th map case is a highly regular batch (timers with 1 500 - 280 000 identical or slowly varying samples, 100 - 12 000 series differing in a numeric tag suffix, sets with runs of similar members, all-zero gauges, tags of up to 3 500 equal characters; three size classes up to several MB inflated, the largest only for off / none / zlib / lz4 0-2), whose inflated/compressed ratio is measured with the harness' decompressor and recorded (regular_ratio:* events, regular_max_* extras); (a'') after every valid case the recorded request bytes are delivered again to the same server in one of ten other legal HTTP framings (chunked via net/http, hand-written chunked with odd sizes / one-byte chunks / extensions / trailers, Expect-continue via net/http and hand-written, split writes, single write, HTTP/1.0, pipelined pair), same oracle; (d) retry: the first attempt of a forwarder (map with all four types or event; off / none / zlib / lz4, all 22 configurations in thorough) is answered 503 / 500 / connection reset by a front that has read the whole body, the forwarder's own retry is let through to the real router: re-sent bytes and headers equal the first attempt's, exactly one dispatch equal to the input; (f) overlap: one forwarder (off / zlib / lz4 levels; also with the dynamic header 'region', which splits a flush into up to four bodies) whose batch 1 (100-600 datapoints) gets 503 for every body's first attempt; during the back-off batch 2 (smaller, similar or much larger; sometimes a highly regular batch) and an event are dispatched, flushed and accepted on the same forwarder; then the retries pass: each batch dispatched exactly once piece by piece with its own content, retry bytes identical to the first attempt; (e) concurrent: rounds in which 9 real forwarders and 16 direct posters of previously recorded forwarder bytes are released together against one router, bodies of four size classes (20 .. 5500 datapoints, events up to 20 KiB), each request with a unique id in a tag / the title: all 2xx, per id as many dispatches as 2xx answers, each equal to its own input, no mixture. Non-trivial: a map with >= 3 metric types and a series with both source and tags, distinct by (type mix, compression configuration, non-finite values present); an event with tags and a source, distinct by (priority, alert type, configuration); a corrupt body, distinct by (endpoint, corruption kind, harness-decodable, status class); a retry case by (item, fault, configuration); a concurrent request by (sender, item, encoding, body size class); a regular batch by (workload, shape, configuration, ratio bucket); an overlap case in which a later post reached the server before the retry, by (variant, configuration, body counts, size class of batch 2); a framing case by (framing, item, encoding, body size class).")
+	r.Rule("cases: (a) a fresh MetricMap (1..40, sometimes up to 1800 datapoints over small pools of valid-UTF-8 names / tags / sources / set members incl. empty tag lists, empty sources, empty set member, NUL and 4-byte runes; all four types; gauge and timer values from arbitrary bit patterns incl. NaN, ±Inf, ±0, denormals, ±MaxFloat64; sampled rates; extreme counters and arbitrary sampled counts written into the aggregate) or (b) an event (all 8 priority x alert combinations, empty fields, nil / empty / filled tags, multi-line text, zero / negative / huge dates) is given to a real HttpForwarderHandlerV2 of one of 22 compression configurations (off, none, zlib 0-9, lz4 0-9; configurations cycle so every one is used equally), flushed by hand, and compared with what the real ingestion router dispatched; (c) 4-5 corruptions of the recorded request bytes of every such case (truncate, bit flips, wrong / unknown Content-Encoding label, garbage, other endpoint, trailing bytes, deleted byte, body shorter than Content-Length over raw TCP) are posted to the router and judged against the harness' own decompress + proto.Unmarshal. (a') every 13th map case is a highly regular batch (timers with 1 500 - 280 000 identical or slowly varying samples, 100 - 12 000 series differing in a numeric tag suffix, sets with runs of similar members, all-zero gauges, tags of up to 3 500 equal characters; three size classes up to several MB inflated, the largest only for off / none / zlib / lz4 0-2), whose inflated/compressed ratio is measured with the harness' decompressor and recorded (regular_ratio:* events, regular_max_* extras); (a'') after every valid case the recorded request bytes are delivered again to the same server in one of ten other legal HTTP framings (chunked via net/http, hand-written chunked with odd sizes / one-byte chunks / extensions / trailers, Expect-continue via net/http and hand-written, split writes, single write, HTTP/1.0, pipelined pair), same oracle; (d) retry: the first attempt of a forwarder (map with all four types or event; off / none / zlib / lz4, all 22 configurations in thorough) is answered 503 / 500 / connection reset by a front that has read the whole body, the forwarder's own retry is let through to the real router: re-sent bytes and headers equal the first attempt's, exactly one dispatch equal to the input; (f) overlap: one forwarder (off / zlib / lz4 levels; also with the dynamic header 'region', which splits a flush into up to four bodies) whose batch 1 (100-600 datapoints) gets 503 for every body's first attempt; during the back-off batch 2 (smaller, similar or much larger; sometimes a highly regular batch) and an event are dispatched, flushed and accepted on the same forwarder; then the retries pass: each batch dispatched exactly once piece by piece with its own content, retry bytes identical to the first attempt; (g) long-lived forwarder: max-request-elapsed-time 3 s, one item while young, a real pause beyond the window, then four more batches / events, each with one transient first-attempt failure: retried identically and decoded once; (e) concurrent: rounds in which 9 real forwarders and 16 direct posters of previously recorded forwarder bytes are released together against one router, bodies of four size classes (20 .. 5500 datapoints, events up to 20 KiB), each request with a unique id in a tag / the title: all 2xx, per id as many dispatches as 2xx answers, each equal to its own input, no mixture. Non-trivial: a map with >= 3 metric types and a series with both source and tags, distinct by (type mix, compression configuration, non-finite values present); an event with tags and a source, distinct by (priority, alert type, configuration); a corrupt body, distinct by (endpoint, corruption kind, harness-decodable, status class); a retry case by (item, fault, configuration); a concurrent request by (sender, item, encoding, body size class); a regular batch by (workload, shape, configuration, ratio bucket); an overlap case in which a later post reached the server before the retry, by (variant, configuration, body counts, size class of batch 2); a framing case by (framing, item, encoding, body size class).")
 	r.Assume("compress/zlib, pierrec/lz4 and google.golang.org/protobuf (with the generated pb package) define what a decodable body is; the harness calls them itself, not through pkg/web")
 	r.Assume("ref.FromMap flattening, taken before the map is handed to the forwarder, is a faithful copy of the input")
 
@@ -1139,6 +1141,13 @@ func TestCheck(t *testing.T) {
 		return
 	}
 
+	// long-lived forwarders (5-7 s of real time each) run next to everything else
+	agedDone := make(chan struct{})
+	go func() {
+		defer close(agedDone)
+		c.agedRun(cfgs, r.Pick(1, 6))
+	}()
+	defer func() { <-agedDone }()
 	// the forwarder's retry path (each wave waits out one real back-off, its cases run in parallel)
 	shard0, _ := r.Shard()
 	t0 := time.Now()
